@@ -147,11 +147,13 @@ class LiteDRAMAXI2NativeW(Module):
             rmw_cmd_done  = Signal()
             rmw_data_done = Signal()
 
-            # Grant write when write buffer is empty.
-            self.comb += self.rmw_wgrant.eq(~w_buffer_queue & (w_buffer_level == 0))
+            # Grant write when write buffer is empty: all previous beats (including the ones still
+            # buffered) have been sent to the controller and aw points to the partial beat.
+            self.comb += self.rmw_wgrant.eq(~w_buffer_queue & (w_buffer_level == 0) & (w_buffer.level == 0))
 
-            # Prevent new write on Read-Modify-Write request.
-            self.comb += If(self.rmw_request,
+            # Prevent new write during a Read-Modify-Write cycle (beats still buffered are sent first).
+            rmw_busy = Signal()
+            self.comb += If(rmw_busy,
                 can_write.eq(0)
             )
 
@@ -171,11 +173,12 @@ class LiteDRAMAXI2NativeW(Module):
                     # Before issuing the RMW sequence, we must ensure that all pending writes/reads
                     # access have been done, so issue a request and wait for grant.
                     self.rmw_request.eq(1),
-                    If(self.rmw_rgrant & self.rmw_wgrant & can_respond,
+                    If(self.rmw_rgrant & self.rmw_wgrant & aw.valid & can_respond,
                         NextState("READ")
                     )
                 )
             )
+            self.comb += rmw_busy.eq(~rmw_fsm.ongoing("IDLE"))
             rmw_fsm.act("READ",
                 self.rmw_request.eq(1),
                 # Issue Read Cmd.
